@@ -493,7 +493,7 @@ impl Batch {
             }
             AnyPlan::Event(p) => {
                 if let Some(ti) = self.type_index(&p.ty) {
-                    let o = (self.reg[ti].run)(p, opts);
+                    let o = self.reg[ti].run(p, opts);
                     out.ops.push((ti, plan.clone(), o));
                 } else {
                     out.harness_error = Some(format!("unknown type {}", p.ty));
@@ -501,7 +501,7 @@ impl Batch {
             }
             AnyPlan::Json(p) => {
                 if let Some(ti) = self.type_index(&p.ty) {
-                    let o = (self.reg[ti].run_json)(p, opts);
+                    let o = self.reg[ti].run_json(p, opts);
                     out.ops.push((ti, plan.clone(), o));
                 } else {
                     out.harness_error = Some(format!("unknown type {}", p.ty));
